@@ -270,6 +270,9 @@ def _param_decl(p):
         return "%s &%s" % (p["cls"], n)
     if k == "len_hidden":
         return "int *%s +intent(out)+hidden" % n
+    if k == "fnptr":
+        # callbacks.rst: a function pointer argument (no +external: Shroud writes an abstract interface for it)
+        return "int (*%s)(int)" % n
     if k == "vec_in":
         return "const std::vector<%s> &%s" % (T, n)
     if k == "vec_out":
@@ -471,6 +474,9 @@ def impl_function(f, lang, qual=""):
         k, T, n = p["kind"], p.get("T"), p["name"]
         if k in ("val", "implied"):
             lines.append("    %s vfD = vf_mix(vfD, %s);" % (log_scalar(T, n, n), h_expr(T, n)))
+        elif k == "fnptr":
+            # the library calls the callback once with 3 and records what it returned (the drivers pass i -> 3*i+1)
+            lines.append('    { int vf_cbr = %s ? %s(3) : -1; vf_log_i("%s", (long long)vf_cbr, 1); vfD = vf_mix(vfD, vf_h_i((long long)vf_cbr)); }' % (n, n, n))
         elif k in ("ptr_in", "ptr_inout"):
             lines.append("    %s vfD = vf_mix(vfD, %s);" % (log_scalar(T, n, "*" + n), h_expr(T, "*" + n)))
         elif k == "ref_inout":
@@ -777,6 +783,9 @@ def model_call(f, args, this_serial=None):
             v = args[n]                      # serial of the object passed
             recv[n] = "i:%d" % v
             d = dmix(d, v & M64)
+        elif k == "fnptr":
+            recv[n] = repr_scalar(10, "int")
+            d = dmix(d, h_scalar(10, "int"))
         elif k in ("val", "ptr_in", "ptr_inout", "ref_inout"):
             v = args[n]
             recv[n] = repr_scalar(v, T)
